@@ -32,7 +32,8 @@ CONSTANTS Ver,        \* 3 or 4
                       \* that the only choice left is the red-black shape of every sibling tree: exhaustive
                       \* enumeration then yields every valid shape of the content exactly once
 
-DictAll == JsonDeserialize(IOEnv.DICT)
+DictFile == JsonDeserialize(IOEnv.DICT)      \* read once (see Trace_File)
+DictAll == DictFile
 Content == JsonDeserialize(IOEnv.CONTENT)
 Nodes   == Content.nodes            \* sequence; node ids are 1..Len(Nodes); parent 0 = root
 NN      == Len(Nodes)
